@@ -374,3 +374,25 @@ def shrink(case):
                 c["in"][key] = i[key][:k] + i[key][k + 1:]
         if c["in"]["rows"]:
             yield c
+
+
+OTHER_AUTOSOME_NAMES = ["M", "MT", "Un_gl000220", "6_apd_hap1", "1_gl000191_random", "EBV", "23", "x1", "Yp"]
+
+
+def other_names(rng, case, share=0.4):
+    """autosome-class rows under names that are not 1..22 (mitochondrion, unplaced / random contigs, alternate haplotypes,
+    names that merely contain an x or a y): every one of them carries `ploidy` copies in the reference on every path.
+    Row 0 keeps its name (it fixes the naming style)."""
+    i = case["in"]
+    rows = i["rows"]
+    pre = "chr" if rows and rows[0][0].startswith("chr") else ""
+    hit = False
+    for k in range(1, len(rows)):
+        c = rows[k][0]
+        core = c[3:] if c.startswith("chr") else c
+        if core.isdigit() and rng.random() < share:
+            rows[k] = [pre + rng.choice(OTHER_AUTOSOME_NAMES)] + list(rows[k][1:])
+            hit = True
+    if hit:
+        case["tag"] += "+othernames"
+    return case
